@@ -43,6 +43,19 @@ CLAIMED = {
              "by the oracle only (8-bit quantisation, no theorem).",
         technique="Lean 4 proof (kernel-decided regenerated table; omega over div/mod; field algebra for HSL) + exhaustive differential correspondence",
         ref="DESIGN.md §4 C13"),
+    "C11": dict(
+        text="Lean 4 theorems over an arbitrary linearly ordered field: the transcribed viewbox_transform equals SVG 2 section 8.2 for "
+             "every element box, viewBox, align and meetOrSlice (all 10x3 attribute spellings decided by the kernel, arithmetic by ring); "
+             "meet maps the viewBox rectangle inside the viewport and slice over it, touching in at least one dimension; min/mid/max "
+             "alignment per axis; align=none is an exact fit; the four textual forms of the emitted transform denote the same matrix; "
+             "missing viewBox = identity, zero sizes disable rendering and no division by zero escapes. Model tied to the code on all 30 "
+             "cells x geometries plus generated geometries, Viewbox objects and parsed documents with every size-supply route; section "
+             "8.2 and its geometric consequences are evaluated independently on the implementation.",
+        note="Trusted: Lean kernel + standard axioms; '%.12f' printing of the four numbers (absolute 5e-13) is modelled as exact; IEEE "
+             "rounding; unit/percentage resolution of width/height is C12's model; non-canonical preserveAspectRatio spellings (double "
+             "spaces, 'defer') are outside the quantifier.",
+        technique="Lean 4 proof (kernel-decided 30-cell table + ordered-field algebra, nlinarith) + differential correspondence + independent section-8.2 oracle",
+        ref="DESIGN.md §4 C11"),
 }
 ALL = ["C%02d" % i for i in range(1, 21)]
 
